@@ -114,6 +114,7 @@ class FakeFS:
 
     def __init__(self):
         self.files = {}
+        self.clobbered = set()   # paths written more than once with different content
 
     async def _get_fs(self, uri):
         return self
@@ -122,6 +123,8 @@ class FakeFS:
         pass
 
     async def write(self, path, data):
+        if path in self.files and self.files[path] != bytes(data):
+            self.clobbered.add(path)
         self.files[path] = bytes(data)
 
     async def close(self):
@@ -245,6 +248,7 @@ def _reset(env):
     env['uuid'].n = 0
     env['transfers'].clear()
     env['fs'].files.clear()
+    env['fs'].clobbered.clear()
     env['client'].batches.clear()
 
 
@@ -295,6 +299,26 @@ def all_refs(p, job, consumer_type):
     return refs
 
 
+NAME_SCHEMES = ('default', 'none', 'same-short', 'same-long', 'long-common-prefix', 'collide-after-sanitising')
+
+
+def job_name(scheme, k):
+    """Job names feed the scratch directory of a job's resources (safe_str(name)[:245] + '-' + token)."""
+    if scheme == 'default':
+        return f'j{k}'                       # short, distinct
+    if scheme == 'none':
+        return None
+    if scheme == 'same-short':
+        return 'job'
+    if scheme == 'same-long':
+        return 'n' * 260                     # identical, longer than the 245-character cap
+    if scheme == 'long-common-prefix':
+        return 'p' * 245 + str(k) * 15       # 260 characters, equal up to the cap, different after it
+    if scheme == 'collide-after-sanitising':
+        return ('a b', 'a/b', 'a.b', 'a:b')[k]   # all become a_b
+    raise HarnessError(scheme)
+
+
 class Built:
     pass
 
@@ -311,8 +335,11 @@ def build_and_run(prog):
     n = len(specs)
     order = list(range(n))[::-1] if prog.get('rev') else list(range(n))
     jobs = [None] * n
+    scheme = prog.get('names', 'default')
     for k in order:
-        jobs[k] = b.new_job(name=f'j{k}') if specs[k]['type'] == 'B' else b.new_python_job(name=f'j{k}')
+        # the harness recognises submitted jobs by an attribute, so that names are free to vary
+        mk = b.new_job if specs[k]['type'] == 'B' else b.new_python_job
+        jobs[k] = mk(name=job_name(scheme, k), attributes={'vf': str(k)})
 
     inputs = {}
 
@@ -424,18 +451,20 @@ def build_and_run(prog):
         raise HarnessError('batch was not created/submitted exactly once')
     rec = {}
     for aj in client.batches[0].jobs:
-        name = (aj.kw.get('attributes') or {}).get('name')
-        m = re.fullmatch(r'j(\d+)', name or '')
-        if m:
-            if int(m.group(1)) in rec:
-                raise HarnessError(f'two submitted jobs named {name}')
-            rec[int(m.group(1))] = aj
+        attrs = aj.kw.get('attributes') or {}
+        if 'vf' in attrs:
+            if int(attrs['vf']) in rec:
+                raise HarnessError(f'two submitted jobs carry the harness id {attrs["vf"]}')
+            if attrs.get('name') != job_name(scheme, int(attrs['vf'])):
+                raise HarnessError(f'job {attrs["vf"]} submitted under name {attrs.get("name")!r}')
+            rec[int(attrs['vf'])] = aj
     if sorted(rec) != list(range(n)):
         raise HarnessError(f'submitted jobs {sorted(rec)} != program jobs {list(range(n))}')
     bt = Built()
     bt.rec, bt.templates, bt.pyargs, bt.transfers = rec, templates, pyargs, list(env['transfers'])
     bt.fs = FakeFS()
     bt.fs.files = dict(fs.files)
+    bt.fs.clobbered = set(fs.clobbered)
     bt.all_jobs = client.batches[0].jobs
     return bt
 
@@ -483,6 +512,9 @@ def judge(prog, bt):
         if not any(s == sig for s, _ in viol):
             viol.append((sig, msg))
 
+    if bt.fs.clobbered:
+        bad('distinct-resources-share-remote-path', f'the client wrote {sorted(bt.fs.clobbered)} more than once with '
+            'different content (files of different jobs uploaded to one location)')
     tmp = {}
     subst = {}     # job -> {key: local path} for bash jobs (from the command), python jobs (from the args file)
     for k in range(n):
@@ -525,6 +557,10 @@ def judge(prog, bt):
                         continue
                     if isinstance(obj, tuple) and len(obj) == 2 and isinstance(obj[0], list) and isinstance(obj[1], dict):
                         arg_files.append((src, dst, obj))
+            if any(src in bt.fs.clobbered for src, _ in _files(kw.get('input_files'))):
+                bad('distinct-resources-share-remote-path', f'job {k} downloads {sorted(bt.fs.clobbered)}, which the client '
+                    'wrote more than once with different content (files of different jobs uploaded to one location)')
+                continue
             if len(arg_files) != 1:
                 raise HarnessError(f'python job {k}: expected one argument file among its inputs, found {len(arg_files)}')
             _, arg_dst, (args, kwargs) = arg_files[0]
@@ -880,12 +916,27 @@ def plan(tier):
                      '{bash, python} consumer, every job taking none / one / an ordered pair of references from every earlier '
                      'job x split x depends_on-first'},
         ]
+    # job naming: names feed the scratch directory of every job resource, so every naming scheme is crossed with a
+    # thinned program space in which all producers use the same resource identifiers (ofile / og / result1)
+    named2 = (2, full, (None,), (False,))
+    named3 = (3, red, (None,), (False,)) if quick else (3, red, (None, ('r2', 'f')), (False, True))
+    for scheme in NAME_SCHEMES[1:]:
+        pl.append({'gen': 'named', 'n': 3, 'scheme': scheme, 'args': [named2, named3], 'shards': 8 if quick else 32,
+                   'what': f'job names "{scheme}": n=2 all job kinds + n=3 4 job kinds, all single reads'
+                           + ('' if quick else ', {no input, quoted input}, both creation orders')})
     return pl
 
 
 def plan_programs(entry):
     if entry['gen'] == 'base':
         return programs(*entry['args'])
+    if entry['gen'] == 'named':
+        def gen():
+            for a in entry['args']:
+                for prog in programs(*a):
+                    prog['names'] = entry['scheme']
+                    yield prog
+        return gen()
     return ext_programs(*entry['args'])
 
 
@@ -894,7 +945,8 @@ _OUT_RANK = {o: i for i, o in enumerate(('none', 'file', 'res', 'str', 'group', 
 
 def prog_key(prog):
     jobs = prog['jobs']
-    return (len(jobs), sum(len(j['reads']) for j in jobs), sum(bool(j['wout']) for j in jobs),
+    return (len(jobs), NAME_SCHEMES.index(prog.get('names', 'default')), sum(len(j['reads']) for j in jobs),
+            sum(bool(j['wout']) for j in jobs),
             sum(bool(j.get('out2')) + bool(j.get('split')) + bool(j.get('dep_first')) for j in jobs), bool(prog.get('rev')),
             tuple((j['type'], _OUT_RANK[j['out']]) for j in jobs), repr(prog))
 
@@ -904,7 +956,7 @@ def _work(item):
     entry = plan(tier)[pi]
     res = {'evals': 0, 'viol': {}, 'reads': 0, 'quoted': 0, 'group_reads': 0, 'py_reads': 0, 'staged': 0,
            'same_twice': 0, 'two_of_one_producer': 0, 'dep_first': 0, 'split': 0,
-           'with_read': 0, 'rejected': 0, 'samples': [], 'ext': entry['gen'] == 'ext'}
+           'with_read': 0, 'rejected': 0, 'samples': [], 'ext': entry['gen'] != 'base', 'named': 0}
     for i, prog in enumerate(plan_programs(entry)):
         if i % nshards != shard:
             continue
@@ -914,6 +966,7 @@ def _work(item):
             res[k] += stats[k]
         if stats['rejected']:
             continue
+        res['named'] += prog.get('names', 'default') != 'default'
         res['dep_first'] += any(j.get('dep_first') for j in prog['jobs'])
         res['split'] += any(j.get('split') for j in prog['jobs'])
         if any(isinstance(r[0], int) for j in prog['jobs'] for r in j['reads']):
@@ -936,7 +989,7 @@ def check(tier, seed, procs):
         items += [(tier, pi, s, entry['shards']) for s in range(entry['shards'])]
     rows = par.pmap(_work, par.rotate(items, seed), procs, chunksize=1)
     keys = ('evals', 'reads', 'quoted', 'group_reads', 'py_reads', 'staged', 'with_read', 'rejected', 'same_twice',
-            'two_of_one_producer', 'dep_first', 'split')
+            'two_of_one_producer', 'dep_first', 'split', 'named')
     tot = {k: sum(r[k] for r in rows) for k in keys}
     best = {}
     for r in rows:
@@ -970,10 +1023,12 @@ def check(tier, seed, procs):
         'reads_of_the_same_resource_again': tot['same_twice'],
         'programs_with_depends_on_before_the_read': tot['dep_first'],
         'programs_with_reads_split_over_two_commands': tot['split'],
+        'programs_with_non_default_job_names': tot['named'],
+        'job_naming_schemes': list(NAME_SCHEMES),
     }
     vac = None
     for k in ('reads', 'quoted', 'group_reads', 'py_reads', 'staged', 'with_read', 'same_twice', 'two_of_one_producer',
-              'dep_first', 'split'):
+              'dep_first', 'split', 'named'):
         if tot[k] == 0:
             vac = f'counter {k} is zero'
     return {
@@ -988,6 +1043,9 @@ def check(tier, seed, procs):
             'Job.__hash__ pinned to creation number so set iteration order is reproducible',
             'functional shim: dill -> pickle (argument files are read back by the harness); inert: rich, cloud SDKs',
             'resource names are Python identifiers (attribute syntax); each input URL is read at most once per batch',
+            'submitted jobs are recognised by a harness attribute ({"vf": index}); job attributes do not feed any path, job '
+            'names do (scratch directory) and are enumerated: unnamed, short distinct, identical short, identical 260-char, '
+            '260-char names equal in their first 245 characters, names that collide after sanitising',
             'a reference replaced by one shell word is judged after expanding ${BATCH_TMPDIR} to the BATCH_TMPDIR the job is '
             'submitted with',
             'commands up to 10 KiB (inline scripts); the code-upload path for larger commands is not enumerated',
